@@ -385,3 +385,107 @@ def r_vla_object(P, rep, rule):
             if len(cvs) != 1 or S(cvs[0][1]) is not ty or not ci or ci[0] > ai:
                 bad.append('the size variable is not computed (compute_vla_size of the declared type) in a statement before the allocation')
         rep.ob(rule, key, not bad, 'declaration of a %s object: %s' % (tag, '; '.join(sorted(set(bad)))), where=where)
+
+
+# ------------------------------------------------------------------------------------------------
+# R04.28  the size variable a VLA object was allocated by stays the one its type carries
+# ------------------------------------------------------------------------------------------------
+def r_vla_size_stays(P, rep, rule):
+    """sizeof x, x[i] (row stride) and `p + n` read the hidden size variable through the Type object of x (R04.13); x's block was allocated
+    from the variable that type carried when x was declared (R04.15). They are the same variable only if no later declarator rebinds it. The
+    declaration specifiers may denote ONE variably modified Type object for several declarators (`typedef int T[n]; T x, y;`,
+    `typeof(int[n]) x, y;`): declaration() is run on `x , y ;` with such a base type - the real declarator(), compute_vla_size() and node
+    constructors interpreted on concrete tokens - and every dimension's size variable is compared at x's allocation and at the end."""
+    from .interp import _Ref, _ValPlace
+    pu = P.unit('parse.c')
+    fn = 'declaration'
+    K = 'parse.c:%s:vla-size-variable-stays/' % fn
+    for f in (fn, 'new_alloca', 'new_lvar', 'declarator'):
+        if f not in pu.functions:
+            rep.undecided(rule, K + 'evaluation', '%s vanished' % f); return
+    E = pu.enums
+    where = 'parse.c:%d' % pu.fn(fn).line
+    try:
+        from .rules.c08 import TokenWorld
+        tw = TokenWorld(P, pu)
+    except (ImportError, AnalysisBroken) as e:
+        rep.undecided(rule, K + 'evaluation', 'the token model of C08 is not available: %s' % e, where=where); return
+
+    def S(it, v):
+        return it.settle(v) if isinstance(v, View) else v
+
+    def chain(it, t):
+        out = []
+        t = S(it, t)
+        while isinstance(t, Obj) and len(out) < 6:
+            if S(it, t.fields.get('kind')) == E['TY_VLA']:
+                out.append((t, S(it, t.fields.get('vla_size'))))
+            t = S(it, t.fields.get('base', 0))
+        return out
+
+    for depth, preset, tag in ((1, False, 'array/size-not-yet-computed'), (1, True, 'array/size-computed-before'), (2, False, 'array-of-arrays/size-not-yet-computed')):
+        key = K + tag
+        box = {}
+
+        def h_lvar(it_, ctx, nd, a):
+            k = len([e for e in ctx.events if e[0] == 'new_lvar'])
+            v = Obj('Obj', lazy=False, label='local#%d' % k)
+            v.fields.update({'name': a[0], 'ty': a[1], 'is_local': 1, 'align': 0, 'next': 0, 'offset': 0})
+            ctx.events.append(('new_lvar', a[0], v))
+            return v
+
+        def h_alloca(it_, ctx, nd, a):
+            r = Obj('Node', lazy=False, label='alloca-call', fields={'kind': E.get('ND_FUNCALL', -1)})
+            named = [e for e in ctx.events if e[0] == 'new_lvar' and isinstance(e[1], str) and e[1]]
+            ctx.events.append(('alloca', named[-1][2] if named else None, chain(it_, named[-1][2].fields.get('ty')) if named else [], a[0]))
+            return r
+
+        def h_ident(it_, ctx, nd, a):
+            t = S(it_, a[0])
+            return t.fields.get('loc') if isinstance(t, Obj) and isinstance(t.fields.get('loc'), str) else Sym('declared-name', 'char *')
+        try:
+            it = Interp(P, pu, {'models': dict(tw.models()), 'cut': {'new_lvar': h_lvar, 'new_alloca': h_alloca, 'get_ident': h_ident},
+                                'opaque': ['new_unique_name', 'add_type'], 'rec_limit': 6})
+
+            def mk(ctx, depth=depth, preset=preset):
+                it.ctx = ctx
+                common = {'is_unsigned': 0, 'is_atomic': 0, 'origin': 0, 'name': 0, 'name_pos': 0, 'array_len': 0, 'members': 0}
+                t = Obj('Type', lazy=False, label='int')
+                t.fields.update(dict(common, kind=E['TY_INT'], size=4, align=4, base=0, vla_len=0, vla_size=0))
+                for d in range(depth):
+                    v = Obj('Type', lazy=False, label='dim%d' % d)
+                    v.fields.update(dict(common, kind=E['TY_VLA'], size=8, align=8, base=t, vla_len=Obj('Node', lazy=False, label='len%d' % d, fields={'kind': E['ND_VAR']}),
+                                         vla_size=Obj('Obj', lazy=False, label='earlier-size%d' % d, fields={'name': '', 'is_local': 1}) if preset else 0))
+                    t = v
+                box['T'] = t
+                return [_Ref(_ValPlace(0)), tw.tokens(['x', ',', 'y', ';']), t, 0]
+            res = list(it.explore(fn, mk))
+        except AnalysisBroken as e:
+            rep.undecided(rule, key, 'declaration() is not interpretable on `T x, y;`: %s' % e, where=where); continue
+        rets = [(c, o) for c, o in res if o[0] == 'ret']
+        if len(rets) != 1 or len(res) != 1:
+            rep.undecided(rule, key, 'declaration() has %d paths (%d returning) on the concrete declaration `T x, y;`' % (len(res), len(rets)), where=where); continue
+        ctx = rets[0][0]
+        it.ctx = ctx
+        al = [e for e in ctx.events if e[0] == 'alloca' and e[1] is not None]
+        if len(al) != 2:
+            rep.undecided(rule, key, '%d allocations for the two declared arrays' % len(al), where=where); continue
+        bad = []
+        for e in al:
+            var, then = e[1], e[2]
+            now = chain(it, var.fields.get('ty'))
+            if not then or len(now) != len(then):
+                bad.append('%s: the type of the object changed its shape' % var.fields.get('name')); continue
+            arg = S(it, e[3])
+            argv = S(it, arg.fields.get('var')) if isinstance(arg, Obj) else None
+            if argv is not then[0][1]:
+                continue            # which variable the block is allocated by is R04.15's subject
+            for i, ((t0, v0), (t1, v1)) in enumerate(zip(then, now)):
+                if v0 is not v1:
+                    bad.append('`%s` was allocated while dimension %d of its type carried the size variable %s; when the declaration is complete its type carries %s'
+                               % (var.fields.get('name'), i + 1, getattr(v0, 'label', v0), getattr(v1, 'label', v1)))
+        rep.ob(rule, key, not bad,
+               'declaration of `T x, y;` where T is one variably modified type object (a typedef name or typeof%s): %s - the declarators share the Type object and each one rebinds its hidden size '
+               'variable, so sizeof x, the row stride of x[i] and pointer arithmetic on x use the size computed for a LATER declaration (`int k = 4; typedef int T[k]; T x; k = 100; T y;` gives '
+               'sizeof x == 400 for a 16-byte block: memset(x, 0, sizeof x) runs over the neighbouring objects)' % (', its size computed before' if preset else '', '; '.join(bad[:3])),
+               where=where, facts={'violations': bad})
